@@ -22,7 +22,7 @@ CLAIMED = {
          "DESIGN.md §4 C15"),
  "C03": ("model_checking",
          "bounded-exhaustive enumeration of route tables x input histories on the real engine, first-match reference routing stepped in lockstep",
-         "Every route table of up to three INCMP lines over five target kinds and three selectors (duplicates, wildcard anywhere, relative targets) is placed at two depths and driven with every input history up to depth 3; after every request the position, the number of moves (code fetches) and the invalid-input page are compared with the first-match rule.",
+         "Every route table of up to three INCMP lines over six target kinds (two named nodes, '_', '<', '.', a terminal node without HALT) and three selectors (duplicates, wildcard anywhere, relative targets) is placed at two depths and driven with every input history up to depth 3; after every request the position, the number of moves (code fetches) and the invalid-input page are compared with the first-match rule.",
          "Trusted: the 40-line reference routing rule and the navigation table model. Tables longer than 3 lines, other selectors and deeper histories are not covered.",
          "DESIGN.md §4 C03"),
  "C04": ("model_checking",
@@ -52,7 +52,7 @@ CLAIMED = {
          "DESIGN.md §4 C06"),
  "C20": ("model_checking",
          "exhaustive enumeration of histories that run past the end of the session on an application family with every kind of end node, persisted operation over the memory and filesystem backends, reference VM in lockstep",
-         "36 applications (end node at depth 0-2; graceful with/without last value, abnormal before/after input handling, external TERMINATE, CROAK; client flag set earlier or not) x all histories of 7 (quick) / 9 (thorough) requests over {1,0,junk} x {persisted-mem, persisted-fs, long-lived}: final output, stop flag, empty cache and kept client flags after a graceful end, re-entry at the entry node with LOADs re-run, and complete silence (zero instructions by hook count) of every request after an abnormal or forced end.",
+         "42 applications (end node at depth 0-2; graceful with/without last value, abnormal before/after input handling and behind a wildcard, external TERMINATE, CROAK; client flag set earlier or not) x all histories of 7 (quick) / 9 (thorough) requests over {1,0,junk} x {persisted-mem, persisted-fs, long-lived, persisted under OutputSize 9 and 14}: final output, stop flag, empty cache and kept client flags after a graceful end, re-entry at the entry node with LOADs re-run, and complete silence (zero instructions by hook count, no resource lookup, no flush error) of every request after an abnormal or forced end.",
          "Trusted: ref.VM. The Postgres-fake backend is added to the backend list when available.",
          "DESIGN.md §4 C20"),
  "C16": ("translation_validation",
@@ -67,8 +67,8 @@ CLAIMED = {
          "DESIGN.md §4 C17"),
  "C18": ("model_checking",
          "stateless DFS with replay over input histories x language-switch answers on a language application family, reference VM in lockstep plus per-lookup language check on the recording resource",
-         "Applications that switch language before the first HALT, while handling input, in a child node and right before the end; every switch answer is a choice among valid 2/3-letter codes, invalid strings and a valid code without the LANG flag; config language on/off; translations present for subsets of {entry template, child template, menu label}; all histories up to depth 3 (quick) / 4 (thorough) in long-lived and persisted operation. Every template, menu and external-function lookup must carry the session's language, rendered text must be the translation where one exists and the default otherwise, also after save/resume; unknown codes leave the language unchanged.",
-         "Trusted: ref.VM's language rule (config, then last valid code). resource.DbResource's own translation fallback is exercised by C10, not here.",
+         "Applications that switch language before the first HALT, while handling input, in a child node and right before the end; every switch answer is a choice among valid 2/3-letter codes, invalid strings and a valid code without the LANG flag; config language on/off; translations present for subsets of {entry template, child template, menu label}; all histories up to depth 3 (quick) / 4 (thorough) in long-lived, persisted and kept-state operation, through the harness's recording resource, the library's DbResource over db/mem (static symbols with translations) and PoResource over gettext catalogues. Every template, menu and external-function lookup must carry the session's language, rendered text must be the translation where one exists and the default otherwise, also after save/resume; unknown codes leave the language unchanged.",
+         "Trusted: ref.VM's language rule (config, then last valid code) with its own table of the ISO-639 codes used in the corpus.",
          "DESIGN.md §4 C18"),
  "C13": ("fault_enumeration",
          "exhaustive enumeration of client programs x every placement of 0, 1 or 2 failing primitive driver calls against an in-process transactional fake of the pgx interface; transactional reference map + open-transaction accounting + reads through a second connection",
@@ -92,7 +92,7 @@ CLAIMED = {
          "DESIGN.md §4 C12"),
  "C19": ("model_checking",
          "controlled cooperative scheduler over session goroutines with scheduling points at every VM instruction, resource callback and store operation; exhaustive enumeration of all schedules up to a pre-emption bound (iterative context bounding, stateless DFS with replay); separate free-running -race pass as sampling complement",
-         "Seven scenarios (2-3 sessions x 2-3 requests; hub node entered through CATCH, MOVE and INCMP; shared code slices with spare capacity and exact-capacity control; same sink browsed by both; one ending while the other browses; long-lived, persisted-mem and persisted-fs on one directory) are explored under every schedule with at most 2 (quick) / 3 (thorough) pre-emptions: each session's transcript must equal its solo transcript, the shared application data must be unchanged up to the capacity of every slice, and package-level state must be unchanged.",
+         "Nine scenarios (2-3 sessions x 2-3 requests; configured language next to a session that switches language; hub node entered through CATCH, MOVE and INCMP; shared code slices with spare capacity and exact-capacity control; same sink browsed by both; one ending while the other browses; long-lived, persisted-mem and persisted-fs on one directory) are explored under every schedule with at most 2 (quick) / 3 (thorough) pre-emptions: each session's transcript must equal its solo transcript, the shared application data must be unchanged up to the capacity of every slice, and package-level state must be unchanged.",
          "Trusted: the cooperative scheduler sees interleavings at its yield points only; races confined to one instruction and memory-model effects are left to the separate free-running pass under the race detector (30 / 300 repetitions), which samples and is reported as such.",
          "DESIGN.md §4 C19"),
  "C10": ("model_checking",
